@@ -4,7 +4,7 @@
    (correspondence on the real TimerQueue, ASan; the forced add-vs-fire schedule on the real code)
    and the generated fact Gen_C07.TimerQueue_addTimer_reads_seq_after_handoff. *)
 From Coq Require Import List ZArith Lia Bool.
-From Muduo Require Import Gen_Consts Gen_C06 Gen_C07 C06_Model C06_Proofs C06_Hist C06_Order C06_GenTie C06_Marshal C07_Model C07_Proofs C07_Width.
+From Muduo Require Import Gen_Consts Gen_C06 Gen_C07 C06_Model C06_Proofs C06_Hist C06_Order C06_GenTie C06_Marshal C07_Model C07_Proofs C07_Width C07_WidthLink.
 Import ListNotations.
 Local Open Scope Z_scope.
 
@@ -157,6 +157,16 @@ Theorem C07_sequence_width_faithful : forall n, 0 <= n < 2 ^ 63 ->
   swrap TimerId_sequence_bits n = n /\ swrap TimerQueue_ActiveTimer_sequence_bits n = n.
 Proof. exact seq_width_faithful. Qed.
 Print Assumptions C07_sequence_width_faithful.
+(* hence, in every reachable state whose creation counter is below 2^63, the sequences AS STORED in the C++
+   integers identify live timers uniquely (C07_seq_unique carried through the truncation to the real widths) *)
+Theorem C07_stored_sequence_unique : forall c ops st evs, run (init c) ops = Ok (st, evs) -> next_seq st < 2 ^ 63 ->
+  (forall a o, hget a (heap st) = Some o ->
+     swrap Timer_numCreated_bits (o_seq o) = o_seq o /\ swrap Timer_sequence_bits (o_seq o) = o_seq o /\
+     swrap TimerId_sequence_bits (o_seq o) = o_seq o /\ swrap TimerQueue_ActiveTimer_sequence_bits (o_seq o) = o_seq o) /\
+  (forall a b o p, hget a (heap st) = Some o -> hget b (heap st) = Some p ->
+     swrap Timer_sequence_bits (o_seq o) = swrap TimerId_sequence_bits (o_seq p) -> a = b).
+Proof. exact (fun c ops st evs H B => conj (stored_seq_faithful c ops st evs H B) (stored_seq_unique c ops st evs H B)). Qed.
+Print Assumptions C07_stored_sequence_unique.
 
 (* ---- the id returned by an add (F-7) *)
 (* pinned order (sequence() read after the hand-off): a schedule with a use-after-free exists *)
@@ -191,6 +201,13 @@ Example C07_stale_reuse_nonvacuous :
                   match run st [Cb (CCancel 10 1); Cb (CTick 1100); Fire []] with
                   | Ok (_, evs) => evs = [ERun 2 2100 2100 2100]
                   | _ => False end
+  | _ => False
+  end.
+Proof. vm_compute. auto. Qed.
+(* non-vacuity of C07_stored_sequence_unique: a reachable state with a live timer and a counter below 2^63 *)
+Example C07_stored_sequence_nonvacuous :
+  match run (init 1000) reuse_ops with
+  | Ok (st, _) => next_seq st = 2 /\ next_seq st < 2 ^ 63 /\ hget 10 (heap st) = Some (mkT 2 2100 (-1))
   | _ => False
   end.
 Proof. vm_compute. auto. Qed.
